@@ -20,6 +20,47 @@ def _find_loops(body, path=()):
 
 
 _CTR = [0]
+ANCHORS = {}        # set by the runner from baseline/<property>.json: qualified name -> dict(canon=..., names=[...]) of the tree the contracts were written against
+SEEN = {}           # what this run saw (written back by --update-baseline)
+
+
+def _canon(fn):
+    """(hash of the function's AST with every local name replaced by its first-occurrence index, the local names in that order).
+    Two functions with the same hash differ only by a consistent renaming of locals / parameters."""
+    import hashlib, copy
+    params = [a.arg for a in ast.walk(fn) if isinstance(a, ast.arg)]
+    local = {n.id for n in ast.walk(fn) if isinstance(n, ast.Name) and isinstance(n.ctx, (ast.Store, ast.Del))} | set(params)
+    occ = sorted(((n.lineno, n.col_offset, n.id if isinstance(n, ast.Name) else n.arg) for n in ast.walk(fn)
+                  if (isinstance(n, ast.Name) and n.id in local) or (isinstance(n, ast.arg) and n.arg in local)))
+    order = []
+    for _, _, nm in occ:
+        if nm not in order: order.append(nm)
+    idx = {nm: f"v{i}" for i, nm in enumerate(order)}
+    t = _Rename(idx).visit(copy.deepcopy(fn))
+    t.name = '_'
+    return hashlib.sha256(ast.dump(t, include_attributes=False).encode()).hexdigest()[:24], order
+
+
+class _Rename(ast.NodeTransformer):
+    def __init__(self, m): self.m = m
+    def visit_Name(self, n):
+        if n.id in self.m: n.id = self.m[n.id]
+        return n
+    def visit_arg(self, n):
+        if n.arg in self.m: n.arg = self.m[n.arg]
+        return n
+
+
+def _realign(func, fn):
+    """if the function differs from the tree the contracts were anchored on ONLY by a consistent renaming of locals, rename them back (alpha
+    conversion - mechanical and meaning preserving) so that contracts that address loop-head state by local name keep working"""
+    key = f"{func.__module__}:{func.__qualname__}"
+    canon, order = _canon(fn)
+    SEEN[key] = dict(canon=canon, names=order)
+    st = ANCHORS.get(key)
+    if st and st['canon'] == canon and st['names'] != order and len(st['names']) == len(order):
+        fn = _Rename(dict(zip(order, st['names']))).visit(fn)
+    return fn
 
 
 def split_loop(func, ordinal=0, container=None):
@@ -27,7 +68,7 @@ def split_loop(func, ordinal=0, container=None):
     All pieces take (st) where st maps local names (incl. parameters, incl. 'self') to values, and return
     ('__next'|'__break'|'__ret', value)."""
     src = textwrap.dedent(inspect.getsource(func))
-    fn = ast.parse(src).body[0]
+    fn = _realign(func, ast.parse(src).body[0])
     _CTR[0] += 1
     NM = f"__names_{_CTR[0]}" 
     if any(isinstance(n, (ast.Yield, ast.YieldFrom, ast.Nonlocal)) for n in ast.walk(fn)):
@@ -89,4 +130,31 @@ def split_loop(func, ordinal=0, container=None):
     g[NM] = set(names)
     ns = {}
     exec(compile(mod, f"<loop {func.__qualname__}#{ordinal}>", 'exec'), g, ns)
-    return ns['__pre'], ns['__cond'], ns['__body'], ns['__post'], names, info
+    return _guard(ns['__pre']), _guard(ns['__cond']), _guard(ns['__body']), _guard(ns['__post']), names, info
+
+
+class StaleAnchor(Exception):
+    """the contract addresses a local variable of the cut function by a name the function no longer has (or does not supply one the
+    cut piece needs): the contract is out of date with the code - an undecided outcome, never a violation"""
+
+
+class LoopState(dict):
+    """locals at the cut point, by name"""
+    def __missing__(self, k):
+        raise StaleAnchor(f"the cut function has no local variable '{k}' at this point (contract anchored on a local name that no longer exists)")
+
+
+def _guard(piece):
+    def run(st):
+        try:
+            r = piece(st)
+        except NameError as e:                          # UnboundLocalError is a NameError
+            tb = e.__traceback__
+            while tb.tb_next is not None: tb = tb.tb_next
+            if tb.tb_frame.f_code.co_filename.startswith('<loop '):
+                raise StaleAnchor(f"the cut piece reads local '{getattr(e, 'name', '?')}' which the contract's loop-head state does not supply (local renamed or added)") from e
+            raise
+        if isinstance(r, tuple) and len(r) == 2 and type(r[1]) is dict: r = (r[0], LoopState(r[1]))
+        return r
+    run.__name__ = piece.__name__
+    return run
